@@ -28,7 +28,34 @@ def edits(fn):
             yield f'expand augassign @{n.lineno}', ('aug', i)
         elif isinstance(n, ast.Return) and n.value is not None and not isinstance(n.value, (ast.Name, ast.Constant)):
             yield f'bind return value @{n.lineno}', ('ret', i)
+    # two adjacent simple assignments `a = <call-free expr>; b = <call-free expr>` that do not mention each other's target
+    for parent in nodes:
+        for field, val in ast.iter_fields(parent):
+            if isinstance(val, list) and all(isinstance(x, ast.stmt) for x in val):
+                for j in range(len(val) - 1):
+                    x, y = val[j], val[j + 1]
+                    if _pure_assign(x) and _pure_assign(y):
+                        tx, ty = x.targets[0], y.targets[0]
+                        nx = {n.id for n in ast.walk(x) if isinstance(n, ast.Name)} | {ast.unparse(tx)}
+                        ny = {n.id for n in ast.walk(y) if isinstance(n, ast.Name)} | {ast.unparse(ty)}
+                        kx = ast.unparse(tx).split('.')[0].split('[')[0]
+                        ky = ast.unparse(ty).split('.')[0].split('[')[0]
+                        if ast.unparse(tx) not in ast.unparse(y) and ast.unparse(ty) not in ast.unparse(x) and not (
+                                isinstance(tx, ast.Attribute) and isinstance(ty, ast.Attribute) and False):
+                            sx, sy = ast.unparse(tx), ast.unparse(ty)
+                            if sx != sy and sx.split('.')[-1] not in {n.id for n in ast.walk(y.value) if isinstance(n, ast.Name)} and \
+                                    sy.split('.')[-1] not in {n.id for n in ast.walk(x.value) if isinstance(n, ast.Name)}:
+                                yield f'swap independent assignments @{x.lineno}', ('swapstmt', (x.lineno, y.lineno))
     yield 'insert debug log at top', ('log', None)
+
+
+def _pure_assign(x):
+    if not (isinstance(x, ast.Assign) and len(x.targets) == 1):
+        return False
+    t = x.targets[0]
+    okt = isinstance(t, ast.Name) or (isinstance(t, ast.Attribute) and isinstance(t.value, ast.Name) and t.value.id == 'self')
+    return okt and not any(isinstance(n, (ast.Call, ast.Await, ast.Yield, ast.NamedExpr, ast.Subscript, ast.BinOp, ast.Attribute))
+                           for n in ast.walk(x.value))
 
 
 class Renamer(ast.NodeTransformer):
@@ -50,6 +77,16 @@ def apply(fn, what):
         stmt = ast.parse("logger.debug('neutral edit probe')").body[0]
         pos = 1 if (fn.body and isinstance(fn.body[0], ast.Expr) and isinstance(fn.body[0].value, ast.Constant) and isinstance(fn.body[0].value.value, str)) else 0
         fn.body.insert(pos, stmt)
+        return
+    if kind == 'swapstmt':
+        lx, ly = arg
+        for parent in ast.walk(fn):
+            for field, val in ast.iter_fields(parent):
+                if isinstance(val, list):
+                    for j in range(len(val) - 1):
+                        if isinstance(val[j], ast.stmt) and val[j].lineno == lx and val[j + 1].lineno == ly:
+                            val[j], val[j + 1] = val[j + 1], val[j]
+                            return
         return
     n = list(ast.walk(fn))[arg]
     if kind == 'swap':
